@@ -15,10 +15,6 @@ os.environ.setdefault('PYSPARKLING_VERIF', '1')
 logging.disable(logging.CRITICAL)
 
 
-# deeply nested values (a fold that nests its accumulator once per element) must survive json decoding and ==
-sys.setrecursionlimit(20000)
-
-
 def main():
     ap = argparse.ArgumentParser()
     ap.add_argument('prop')
